@@ -185,9 +185,9 @@ func (c *Contracts) LoadFile(path, pkg string) error {
 		case "func", "extern":
 			body := rest(1)
 			var tags []string
-			if i := strings.Index(body, "["); i >= 0 && strings.HasSuffix(body, "]") && !strings.Contains(body[i:], "[any]") {
-				tags = strings.Fields(body[i+1 : len(body)-1])
-				body = strings.TrimSpace(body[:i])
+			if m := regexp.MustCompile(`\[((?:C[0-9]+\s*)+)\]`).FindStringSubmatchIndex(body); m != nil {
+				tags = strings.Fields(body[m[2]:m[3]])
+				body = strings.TrimSpace(body[:m[0]] + " " + body[m[1]:])
 			}
 			fields := strings.Fields(body)
 			key := fields[0]
